@@ -18,6 +18,8 @@ res = {}
 try:
     ap = sh(f'git -C {wt} apply {patch}')
     if ap.returncode:
+        ap = sh(f'git -C {wt} apply -3 {patch}')
+    if ap.returncode:
         print('PATCH DOES NOT APPLY', ap.stderr[:200]); sys.exit(3)
     t = sh(f'cd {wt} && /venv/bin/python -m pytest -q -p no:cacheprovider 2>&1 | tail -1', timeout=1800)
     tests_ok = '187 passed' in t.stdout and 'failed' not in t.stdout
